@@ -19,6 +19,7 @@ CHAINS = {
     1: [('J', 'S')],
     2: [('J', 'S'), ('G', 'S')],
     3: [('J', 'F'), ('J', 'S'), ('G', 'S'), ('J', 'H'), ('G', 'H')],
+    4: [('J', 'S'), ('G', 'S'), ('G', 'S')],          # an idler: slave of one mating and master of the next
 }
 DUTIES = [1, 0.6, -0.7, 0.03]
 LOADS = [0.0, 0.5, 1.5, -0.5]
